@@ -598,6 +598,185 @@ class Gen:
             f["grains models"] = [self.grains_model(dmin, dmax) for _ in range(r.choice([1, 2]))]
         return f
 
+    # ---- line features: subducting plates and faults --------------------------------------------------
+    def slab_temp_model(self, kind, allow_mass_conserving=True):
+        r = self.r
+        fault = kind == "fault"
+        key_min, key_max = ("min distance fault center", "max distance fault center") if fault else ("min distance slab top", "max distance slab top")
+        opts = ["uniform", "linear", "adiabatic"] + ([] if fault else ["plate model"] + (["mass conserving"] if allow_mass_conserving else []))
+        k = r.choice(opts)
+        m = {"model": k}
+        if r.random() < 0.4:
+            m["operation"] = self.op()
+        if k == "uniform":
+            m["temperature"] = self.num(300, 1800, 1)
+            if r.random() < 0.4:
+                m[key_max] = self.num(2e4, 1.2e5, 0)
+        elif k == "linear":
+            m[key_max] = self.num(3e4, 1.5e5, 0)
+            if fault:
+                m["center temperature"] = r.choice([self.num(300, 900, 1), -1])
+                m["side temperature"] = r.choice([self.num(900, 1800, 1), -1])
+            else:
+                m["top temperature"] = r.choice([self.num(300, 900, 1), -1])
+                m["bottom temperature"] = r.choice([self.num(900, 1800, 1), -1])
+        elif k == "adiabatic":
+            if r.random() < 0.4:
+                m["potential mantle temperature"] = self.num(1200, 1800, 1)
+        elif k == "plate model":
+            m["plate velocity"] = self.num(0.01, 0.1, 3)
+            m["density"] = self.num(3000, 3400, 0)
+            if r.random() < 0.5:
+                m["thermal conductivity"] = self.num(2, 4, 2)
+        elif k == "mass conserving":
+            m["spreading velocity"] = self.num(0.02, 0.1, 3)
+            m["subducting velocity"] = self.num(0.02, 0.1, 3)
+            m["ridge coordinates"] = None      # filled in by the caller (needs the trench position)
+            m["coupling depth"] = self.num(6e4, 1.2e5, 0)
+            m["taper distance"] = self.num(5e4, 2e5, 0)
+            m["min distance slab top"] = -self.num(1e5, 3e5, 0)
+            m["max distance slab top"] = self.num(1e5, 2e5, 0)
+            if r.random() < 0.5:
+                m["reference model name"] = r.choice(["half space model", "plate model"])
+            if r.random() < 0.3:
+                m["adiabatic heating"] = r.choice([True, False])
+        return m
+
+    def slab_comp_model(self, kind, ncomp=4):
+        r = self.r
+        fault = kind == "fault"
+        k = r.choice(["uniform", "uniform", "smooth"])
+        n = r.randint(1, 2)
+        comps = r.sample(range(ncomp), n)
+        m = {"model": k, "compositions": comps}
+        if k == "uniform":
+            m["fractions"] = [self.num(0, 1, 3) for _ in comps]
+            if r.random() < 0.4:
+                m["max distance fault center" if fault else "max distance slab top"] = self.num(1e4, 8e4, 0)
+        else:
+            if fault:
+                m["side distance fault center"] = self.num(2e4, 8e4, 0)
+                m["center fractions"] = [self.num(0, 1, 3) for _ in comps]
+                m["side fractions"] = [self.num(0, 1, 3) for _ in comps]
+            else:
+                m["max distance slab top"] = self.num(2e4, 8e4, 0)
+                m["top fractions"] = [self.num(0, 1, 3) for _ in comps]
+                m["bottom fractions"] = [self.num(0, 1, 3) for _ in comps]
+        if r.random() < 0.5:
+            m["operation"] = self.op(comp=True)
+        return m
+
+    def slab_models(self, kind, p=0.7, allow_mass_conserving=True):
+        """a dict with some of the four model lists"""
+        r = self.r
+        out = {}
+        if r.random() < p:
+            out["temperature models"] = [self.slab_temp_model(kind, allow_mass_conserving) for _ in range(r.choice([1, 1, 2]))]
+        if r.random() < p:
+            out["composition models"] = [self.slab_comp_model(kind) for _ in range(r.choice([1, 1, 2]))]
+        if r.random() < 0.3:
+            gm = self.grains_model(0, 1e5)
+            gm.pop("max depth", None)
+            out["grains models"] = [gm]
+        if r.random() < 0.3:
+            vm = {"model": "uniform raw", "velocity": [self.num(-0.1, 0.1, 4) for _ in range(3)]}
+            out["velocity models"] = [vm]
+        return out
+
+    def segments(self, kind, n=None):
+        r = self.r
+        n = n or r.choice([1, 1, 2, 3])
+        segs = []
+        ang = r.choice([self.num(15, 75, 1), 45.0, 90.0, self.num(100, 150, 1)])
+        for _ in range(n):
+            L = self.num(5e4, 3e5, 0)
+            th = self.num(3e4, 1.2e5, 0)
+            s = {"length": L, "thickness": [th] if r.random() < 0.6 else [th, self.num(3e4, 1.2e5, 0)]}
+            if r.random() < 0.5:
+                s["angle"] = [ang]
+            else:
+                a2 = min(170.0, max(5.0, ang + r.choice([-1, 1]) * self.num(5, 40, 1)))
+                s["angle"] = [ang, a2]
+                ang = a2
+            if kind != "fault" and r.random() < 0.3:
+                s["top truncation"] = [self.num(-2e4, 2e4, 0)]
+            segs.append(s)
+        return segs
+
+    def trench(self, spherical, straight, npts=None):
+        r = self.r
+        n = 2 if straight else (npts or r.choice([3, 3, 4, 5]))
+        if spherical:
+            x, y = self.num(-150, 150, 1), self.num(-50, 50, 1)
+            step = (3.0, 12.0)
+        else:
+            x, y = self.num(-5e5, 5e5, 0), self.num(-5e5, 5e5, 0)
+            step = (1.5e5, 6e5)
+        ang = r.uniform(0, 2 * PI)
+        pts = [[x, y]]
+        for _ in range(n - 1):
+            L = r.uniform(*step)
+            x, y = x + L * math.cos(ang), y + L * math.sin(ang)
+            pts.append([round(x, 1) if spherical else float(round(x)), round(y, 1) if spherical else float(round(y))])
+            ang += math.radians(r.uniform(-50, 50))
+        return pts
+
+    def line_feature(self, name, kind=None, spherical=False, straight=None, uniform_sections=None, allow_mass_conserving=True):
+        r = self.r
+        kind = kind or r.choice(["subducting plate", "fault"])
+        straight = (r.random() < 0.5) if straight is None else straight
+        coords = self.trench(spherical, straight)
+        # dip point: to one side of the trench
+        a, b = coords[0], coords[-1]
+        mx, my = (a[0] + b[0]) / 2, (a[1] + b[1]) / 2
+        dx, dy = b[0] - a[0], b[1] - a[1]
+        side = r.choice([-1, 1])
+        dip = [round(mx - side * dy, 1), round(my + side * dx, 1)]
+        f = {"model": kind, "name": name, "coordinates": coords, "dip point": dip}
+        if r.random() < 0.4:
+            f["min depth"] = self.num(0, 8e4, 0)
+        if r.random() < 0.3:
+            f["max depth"] = self.num(3e5, 8e5, 0)
+        if r.random() < 0.2:
+            f["tag"] = r.choice(["alpha", "slabs", kind])
+        nseg = r.choice([1, 1, 2, 3])
+        segs = self.segments(kind, nseg)
+        # models at feature / segment level
+        f.update(self.slab_models(kind, 0.7, allow_mass_conserving))
+        for s in segs:
+            if r.random() < 0.3:
+                s.update(self.slab_models(kind, 0.6, allow_mass_conserving))
+        f["segments"] = segs
+        uniform_sections = (r.random() < 0.5) if uniform_sections is None else uniform_sections
+        if not uniform_sections:
+            secs = []
+            for ci in r.sample(range(len(coords)), r.randint(1, len(coords))):
+                sec = {"coordinate": ci, "segments": self.segments(kind, nseg)}
+                if r.random() < 0.4:
+                    sec.update(self.slab_models(kind, 0.6, allow_mass_conserving))
+                for s in sec["segments"]:
+                    if r.random() < 0.2:
+                        s.update(self.slab_models(kind, 0.6, allow_mass_conserving))
+                secs.append(sec)
+            f["sections"] = secs
+        # mass conserving needs ridge coordinates: a ridge parallel to the trench on the far side of the dip point
+        def fill(ms):
+            for m in ms or []:
+                if m.get("model") == "mass conserving" and m.get("ridge coordinates") is None:
+                    off = 8.0 if spherical else 8e5
+                    L = math.hypot(dx, dy) or 1.0
+                    nx, ny = -dy / L * side, dx / L * side
+                    m["ridge coordinates"] = [[[round(a[0] - nx * off - dx, 1), round(a[1] - ny * off - dy, 1)],
+                                               [round(b[0] - nx * off + dx, 1), round(b[1] - ny * off + dy, 1)]]]
+        fill(f.get("temperature models"))
+        for s in f["segments"]:
+            fill(s.get("temperature models"))
+        for sec in f.get("sections", []):
+            fill(sec.get("temperature models"))
+            for s in sec["segments"]:
+                fill(s.get("temperature models"))
+        return f
+
     def globals(self, w):
         r = self.r
         if r.random() < 0.5:
